@@ -193,6 +193,8 @@ var validSnippets = []string{
 	"local n = 0 while n < 2 do n = n + 1 goto c1; local z = n; ::c1:: ::c2:: ::c3:: end return n",
 	"if true then goto e; local w = 1; ::e:: ::e2:: end return 4",
 	"goto fin; local q = 1; ::fin:: ::fin2::",
+	"return 0x7fffffffffffffff, 0x8000000000000000, 0xffffffffffffffff, 0x10000000000000000, 0xabcdefABCDEF0123456789",
+	"return 1e308, 1e309, 10e500, 1e-400, 123456789012345678901234567890",
 	"do do goto inner; local u = 1; ::inner:: ::inner2:: end goto outer; local v = 2; ::outer:: ::outer2:: end return 5",
 }
 
@@ -470,12 +472,81 @@ func (e *Engine) Run(t *core.Tape, cfg *core.Config, st *core.Stats) *core.Viola
 			sb.WriteString("return a")
 		case 7: // many string escapes
 			sb.WriteString("local s = \"" + strings.Repeat("\\n\\065\\\\", n/3) + "\" return #s")
-		default: // a long chain of operators
+		default: // many of one syntactic unit inside one function or one expression
 			m := n
 			if m > 5000 {
 				m = 5000
 			}
-			sb.WriteString("local a = 1 return a" + strings.Repeat(" + a", m))
+			sub := t.Choose(16)
+			kind = 100 + sub
+			rep := func(unit string, k int) string { return strings.Repeat(unit, k) }
+			switch sub {
+			case 0:
+				sb.WriteString("local a = 1 return a" + rep(" + a", m))
+			case 1:
+				sb.WriteString("local a = 1 return a" + rep(" and a", m))
+			case 2:
+				sb.WriteString("local a = false return a" + rep(" or a", m))
+			case 3:
+				sb.WriteString("local a, b = 1, false if a" + rep(" and a or b", m/2) + " then return 1 end return 2")
+			case 4:
+				sb.WriteString("local a = 'x' return a" + rep(" .. a", min(m, 120)))
+			case 5: // nested parentheses
+				k := min(m, 180)
+				sb.WriteString("local a = 1 return " + rep("(", k) + "a" + rep(")", k))
+			case 6: // nested functions
+				k := min(m, 60)
+				sb.WriteString("local a = 1 return " + rep("(function() return ", k) + "a" + rep(" end)()", k))
+			case 7: // nested table constructors
+				k := min(m, 150)
+				sb.WriteString("return " + rep("{", k) + rep("}", k))
+			case 8: // an if with many elseif branches
+				sb.WriteString("local a = 0 if a == 1 then return 1")
+				for i := 0; i < min(m, 2000); i++ {
+					fmt.Fprintf(&sb, " elseif a == %d then return %d", i+2, i)
+				}
+				sb.WriteString(" else return -1 end")
+			case 9: // many distinct constants (beyond the 8-bit constant operand)
+				sb.WriteString("local t = {}\n")
+				for i := 0; i < min(m, 1500); i++ {
+					fmt.Fprintf(&sb, "t.k%d = %d.5\n", i, i)
+				}
+				sb.WriteString("return t.k0")
+			case 10: // a table constructor with many positional and named items
+				sb.WriteString("local t = {")
+				for i := 0; i < min(m, 3000); i++ {
+					if i%7 == 3 {
+						fmt.Fprintf(&sb, "f%d = %d, ", i, i)
+					} else {
+						fmt.Fprintf(&sb, "%d, ", i)
+					}
+				}
+				sb.WriteString("} return #t")
+			case 11: // many labels and gotos in one function
+				k := min(m, 800)
+				sb.WriteString("local n = 0\n")
+				for i := 0; i < k; i++ {
+					fmt.Fprintf(&sb, "goto l%d ::l%d:: n = n + 1\n", i, i)
+				}
+				sb.WriteString("return n")
+			case 12: // many locals, many return values, many arguments (within the register limit)
+				k := min(m, 80)
+				var names, vals []string
+				for i := 0; i < k; i++ {
+					names = append(names, fmt.Sprintf("v%d", i))
+					vals = append(vals, fmt.Sprint(i))
+				}
+				sb.WriteString("local " + strings.Join(names, ", ") + " = " + strings.Join(vals, ", ") + "\nlocal function f(...) return ... end\nreturn f(" + strings.Join(names, ", ") + ")")
+			case 13: // a long chain of method calls and index operations
+				k := min(m, 1000)
+				sb.WriteString("local o = {} function o:m() return self end o.f = o return o" + rep(":m().f", k))
+			case 14: // a ']' followed by many '=' inside a long string and inside a long comment
+				k := 1 + n%300
+				sb.WriteString("local s = [[a]" + rep("=", k) + "x]] --[[ ]" + rep("=", k) + " ]] return #s")
+			default: // many nested blocks
+				k := min(m, 150)
+				sb.WriteString("local a = 0 " + rep("do ", k) + "a = a + 1 " + rep("end ", k) + "return a")
+			}
 		}
 		src, srcName = sb.String(), fmt.Sprintf("long-token-kind%d-%d", kind, n)
 		valid = true
@@ -835,4 +906,11 @@ func compileEdgeProgram(t *core.Tape) string {
 		tail = append(tail, "c0 = 1")
 	}
 	return "local c0 = 0\n" + strings.Join(pre, "\n") + "\n" + payload + "\n" + strings.Join(tail, "\n") + "\n" + strings.Join(post, "\n") + "\n"
+}
+
+func min(a, b int) int {
+	if a < b {
+		return a
+	}
+	return b
 }
